@@ -8,4 +8,5 @@ cd /verif
 if [ -n "$ONLY" ]; then export VERIF_ONLY=$ONLY; fi
 VERIF_SEEDED_RUN=1 ./check $P --tier $T > /verif/logs/seeded-$S-$P.out 2>&1; RC=$?
 git -C /repo checkout -- .
+if [ $RC -eq 1 ]; then for f in $(grep -o "replay=[^ ]*" /verif/logs/seeded-$S-$P.out | cut -d= -f2 | head -1); do cp "$f" /verif/seeded/$S/caught-replay.json 2>/dev/null; done; fi
 echo "seed=$S check=$P tier=$T exit=$RC"; grep -E "^VIOLATION|^UNDECIDED|^\[" /verif/logs/seeded-$S-$P.out | cut -c1-220 | head -8
